@@ -36,6 +36,8 @@ func replPool() []string {
 		"/* open",
 		model.KwFun + " f() { " + model.KwReturn + " 7; } " + model.KwPrint + " f();",
 		model.BiAbs + "();",
+		"# @ # @ # @ # @ # @ # @ # @", // a line with many lexical errors
+		"1 +; 2 +; ) ) ) ; ; ;",        // a line with a syntax error followed by more garbage
 	}
 }
 
@@ -181,6 +183,54 @@ func C20(c *fw.Ctx) {
 		}
 	}
 	rec()
+	// repetition sessions: one line repeated R times, then every pool line: whatever a line
+	// accumulates (counters, caches, buffers) must not reach later lines
+	reps := 12
+	if !c.Quick() {
+		reps = 40
+	}
+	c.Bound("repetition_sessions", fmt.Sprintf("%d pool lines x %d repetitions x %d follow-up lines", len(pool), reps, len(pool)))
+	for i := range pool {
+		for j := range pool {
+			if !c.Mine() {
+				continue
+			}
+			var sb strings.Builder
+			wantErr := ""
+			for k := 0; k < reps; k++ {
+				sb.WriteString(pool[i] + "\n")
+				wantErr += cal[i].err
+			}
+			sb.WriteString(pool[j] + "\n")
+			wantErr += cal[j].err
+			s := sb.String()
+			o := h.RunRepl(s, h.Opts{})
+			c.Eval(s, true)
+			c.R.States++
+			c.R.Transitions++
+			base := fw.Replay{Mode: "repl", Program: s, CLI: true, InStdout: o.Stdout, InStderr: o.Stderr, InStatus: o.Status}
+			if abnormal(c, o, "repl", s, base) {
+				continue
+			}
+			parts, ok := splitPrompts(o.Stdout)
+			good := ok && len(parts) == reps+2 && o.Status == 0 && o.Stderr == wantErr && parts[reps] == cal[j].out
+			if good {
+				for k := 0; k < reps; k++ {
+					if parts[k] != cal[i].out {
+						good = false
+					}
+				}
+			}
+			if !good {
+				r := base
+				r.Sig = "C20|repetition-session"
+				r.What = "after a line repeated many times, a line must still respond as in a fresh session"
+				r.Expected = fmt.Sprintf("%d x %q then %q; stderr %q", reps, cal[i].out, cal[j].out, trunc(wantErr, 200))
+				r.Observed = fmt.Sprintf("status %d stdout %q stderr %q", o.Status, trunc(o.Stdout, 300), trunc(o.Stderr, 300))
+				c.Violate(r)
+			}
+		}
+	}
 	// the real executable on a sample of sessions
 	if cli := os.Getenv("VERIF_CLI"); cli != "" && c.Shard == 0 {
 		dir, _ := os.MkdirTemp(os.Getenv("VERIF_SCRATCH"), "c20.")
@@ -213,7 +263,7 @@ func lineClass(pool []string, seq []int, k int) string {
 		return "start"
 	}
 	switch i := seq[k-1]; {
-	case i >= 6 && i <= 9, i == 19:
+	case i >= 6 && i <= 9, i == 19, i >= 22:
 		return "static-error"
 	case i >= 10 && i <= 13, i == 21:
 		return "runtime-error"
